@@ -9,7 +9,7 @@ M20 == -20
 Z0 == 0
 C == INSTANCE BBoxClosed
 InvClosedAgrees == Done /\ op \in {"union", "intersection", "shape", "center", "extent", "slices", "from_float"} =>
-    C!Verdict([op |-> op, a |-> a, b |-> b, img |-> img, flt |-> flt, res |-> res]) = "ok"
+    C!Verdict([op |-> op, a |-> a, b |-> b, img |-> img, flt |-> flt, eps |-> <<0, 0, 0, 0>>, res |-> res]) = "ok"
 OpsPair == {"union", "intersection"}
 OpsUnary == {"shape", "center", "extent", "slices"}
 OpsFloat == {"from_float"}
